@@ -55,7 +55,8 @@ def validate(ctx, cases, tag, width=64, jobs=16, module="TshRun", timeout=2400, 
     p2 = os.path.join(wd, "tlc-cases.ndjson")
     write_ndjson(p2, slim)
     twd = ctx.sub("tlc-" + tag)
-    verdicts, st = ctx.tlc(module, workdir=twd, files=[(p2, "cases.ndjson")], constants={"W": str(width)}, timeout=timeout)
+    verdicts, st = ctx.tlc(module, workdir=twd, files=[(p2, "cases.ndjson")], constants={"W": str(width)}, timeout=timeout,
+                           cover=[("TshDyn", "Step")] if module == "TshRun" else ())
     byid = {v["id"]: v for v in verdicts}
     res = {}
     for c in ran:
@@ -147,3 +148,12 @@ def scale_cases(ctx, prop):
     """spec/FamScale.tla: the cases beyond the small scope that belong to one property (ids scale/<property>/...)"""
     fam = ctx.tlc_family("FamScale", constants={"Tier": '"%s"' % ctx.tier}, timeout=3000)
     return [c for c in fam if c["id"].startswith("scale/%s/" % prop)]
+
+
+def pair_cases(ctx, prop=None):
+    """spec/FamPairs.tla: every ordered pair of feature snippets in every composition mode (ids pairs/<property>/<mode>/<A>-<B>);
+    with `prop` only the pairs whose highest property is `prop`."""
+    fam = ctx.tlc_family("FamPairs", constants={"Tier": '"%s"' % ctx.tier}, timeout=3000)
+    if prop is None:
+        return fam
+    return [c for c in fam if c["id"].startswith("pairs/%s/" % prop)]
